@@ -52,6 +52,8 @@ func checkC02(c *Check) {
 	c02CommitRecordWriters(c)
 	c02RecordMaps(c)
 	c02WheelCallback(c)
+	c02CommitNeverFails(c, "R11")
+	c02ReportID(c, "R12")
 	c02ErrorsNotSwallowed(c)
 	c02CleanupOnlyWhenGone(c)
 }
